@@ -6,7 +6,7 @@ fail=0
 for d in seeded/*/; do
   n=$(basename "$d")
   case "$n" in *"$1"*) ;; *) continue;; esac
-  prop=$(python3 -c "import json,sys;m=json.load(open('$d/meta.json'));print(m.get('property') or m.get('breaks_property'))")
+  prop=$(python3 -c "import json,sys;m=json.load(open('$d/meta.json'));print((m.get('regress_with') or [m.get('property') or m.get('breaks_property')])[0])")
   out=$(tools/try_seed.sh "$(pwd)/$d/patch.diff" quick "$prop" 2>&1 | grep "^$prop exit=")
   case "$out" in
     "$prop exit=1"*) echo "ok     $n ($prop)";;
